@@ -4,7 +4,7 @@ using namespace c16;
 VH_FAMILY(trace_quad)
 {
   typedef Shape::Hypercube<2> S;
-  Env<S> e; gen_env(c, e, 2000);
+  Env<S> e; gen_env(c, e, 2000, (c.k % 2) == 0); // every other case: re-oriented cells and general (non-parallelogram) boundary facets
   switch(c.rng.below(3))
   {
   case 0: run_trace<S, SL1>(c, e); break;
